@@ -72,6 +72,11 @@ class Env:
         m = re.match(r'^(.+)::(\w+)$', c)
         return None
 
+    _shared_re = re.compile(r'^(std::sync::)?Mutex::<.*>::(lock|try_lock)$|^Atomic::<.*>::(load|store|swap|fetch_add|fetch_sub|fetch_or|compare_exchange)$|'
+                            r'^Semaphore::(try_acquire|try_acquire_many|add_permits|close|is_closed|available_permits)$|Semaphore::acquire\(\)\} as Future>::poll$')
+
+    def is_shared_access(s, callee): return s._shared_re.search(callee) is not None
+
     def resolve_hint(s, callee): return None
     def home_crate(s): return getattr(s, 'home', None)
     def disambiguate(s, callee, cands): return cands
@@ -527,7 +532,7 @@ class Env:
                 st.logev('self_deadlock', th.name)
                 st.gset('deadlocks', st.gget('deadlocks', ()) + (th.name,))
                 return [('block', st, 'self-deadlock')]
-            return [('block', st, 'mutex')]
+            return [('block', st, 'mutex', a[0])]
         M.write(st, a[0], m.with_field(1, Opaque('owner:' + th.name)))
         g = Agg('MutexGuard', [a[0], bool(th.panicking)])
         if m.f[2] is True: return s.ret(st, err(Agg('PoisonError', [g])))
